@@ -6,6 +6,7 @@ import (
 	"fmt"
 	"io"
 	"net"
+	"regexp"
 	"runtime/debug"
 	"sort"
 	"strconv"
@@ -109,12 +110,25 @@ func valueSizes(v *pb.TypedValue, st *stats) {
 	st.size(dimStr, len(v.GetBytesVal())+len(v.GetJsonVal())+len(v.GetJsonIetfVal())+len(v.GetAsciiVal()), 256, 4096)
 }
 
+// stackArgs / stackOff: the parts of a stack trace that differ from run to run
+// (argument words, pc offsets, goroutine numbers). They are removed so that the
+// same failure has the same message every time (the shrinker relies on that).
+var (
+	stackArgs = regexp.MustCompile(`\((0x[0-9a-f]+\??|\{|\.\.\.)[^()]*\)$`)
+	stackOff  = regexp.MustCompile(` \+0x[0-9a-f]+$`)
+	stackGo   = regexp.MustCompile(` in goroutine [0-9]+$`)
+)
+
 func trimStack(b []byte) string {
 	lines := strings.Split(string(b), "\n")
 	var keep []string
 	for i := 0; i+1 < len(lines); i++ {
 		if strings.Contains(lines[i], "github.com/openconfig/gnmi/") {
-			keep = append(keep, strings.TrimSpace(lines[i]), "  "+strings.TrimSpace(lines[i+1]))
+			fn := stackGo.ReplaceAllString(strings.TrimSpace(lines[i]), "")
+			for stackArgs.MatchString(fn) {
+				fn = stackArgs.ReplaceAllString(fn, "")
+			}
+			keep = append(keep, fn, "  "+stackOff.ReplaceAllString(strings.TrimSpace(lines[i+1]), ""))
 		}
 		if len(keep) >= 12 {
 			break
@@ -360,9 +374,13 @@ func runIngest(sc *Scenario) (st *stats, err error) {
 	for _, b := range sc.Pre {
 		n := &pb.Notification{}
 		if proto.Unmarshal(b, n) == nil {
+			where = func() string {
+				return fmt.Sprintf("GnmiUpdate of the valid notification %s (the state before the hostile messages)", short(fmt.Sprint(n), 2000))
+			}
 			c.GnmiUpdate(n)
 		}
 	}
+	where = func() string { return "the lifecycle calls" }
 	st.size(dimPre, len(sc.Pre), 17, 129)
 	st.size(dimMsgs, len(sc.Msgs), 17, 129)
 	for _, l := range sc.Lifecycle {
@@ -716,12 +734,15 @@ func runSubscribe(t *testing.T, sc *Scenario) (st *stats, err error) {
 		srv, _ := subscribe.NewServer(c, subscribe.WithStats())
 		c.SetClient(srv.Update)
 		half := len(sc.Pre) / 2
+		st.size(dimPre, len(sc.Pre), 17, 129)
 		for _, b := range sc.Pre[:half] {
 			n := &pb.Notification{}
 			if proto.Unmarshal(b, n) == nil {
+				where = fmt.Sprintf("GnmiUpdate of the valid notification %s (the state before the Subscribe RPC)", short(fmt.Sprint(n), 2000))
 				c.GnmiUpdate(n)
 			}
 		}
+		where = "setup"
 		ctx := peer.NewContext(context.Background(), &peer.Peer{Addr: memAddr{}})
 		ctx, cancel := context.WithCancel(ctx)
 		stream = &memStream{ctx: ctx, cancel: cancel, recvC: make(chan *pb.SubscribeRequest, len(sc.Msgs)+1)}
@@ -754,9 +775,11 @@ func runSubscribe(t *testing.T, sc *Scenario) (st *stats, err error) {
 		for _, b := range sc.Pre[half:] {
 			n := &pb.Notification{}
 			if proto.Unmarshal(b, n) == nil {
+				where = fmt.Sprintf("GnmiUpdate of the valid notification %s while the subscription is up (requests %v)", short(fmt.Sprint(n), 2000), sc.Text)
 				c.GnmiUpdate(n)
 			}
 		}
+		where = fmt.Sprintf("Reset / end of stream / Remove / cancellation after the Subscribe RPC with requests %v", sc.Text)
 		c.Reset("dev")
 		synctest.Wait()
 		close(stream.recvC)
